@@ -163,6 +163,21 @@ func (c *lbCtx) lenLB(f *ssa.Function, v ssa.Value, at *ssa.BasicBlock) int64 {
 			if inner-lo > best {
 				best = inner - lo
 			}
+		} else if x.Low != nil {
+			// data[off:] inside a stride / chunk loop: at least one whole entry is left
+			for _, k := range []int64{64, 32, 28, 16, 14, 8, 4, 2, 1} {
+				if k <= best {
+					break
+				}
+				if ok, _ := strideProven(f, canon(x.X), x.Low, k, x.Block()); ok {
+					best = k
+					break
+				}
+				if ok, _ := chunkProven(f, canon(x.X), x.Low, k, x.Block()); ok {
+					best = k
+					break
+				}
+			}
 		}
 	case *ssa.Phi:
 		m := int64(-1)
@@ -257,6 +272,12 @@ func indexGuarded(f *ssa.Function, idx, x ssa.Value, at *ssa.BasicBlock) bool {
 			// a constant array length
 			if at2, ok := derefArray(x.Type()); ok {
 				if k, ok := cInt((v)); ok && k <= at2.Len() {
+					return true
+				}
+			}
+			// the count the slice was made with (make succeeded, so the count is its length)
+			if m, ok := makeLenOf(x); ok {
+				if _, isConst := canonConv(m).(*ssa.Const); !isConst && sameValue(canonConv(m), canonConv(v)) {
 					return true
 				}
 			}
@@ -472,7 +493,50 @@ func strideProven(f *ssa.Function, data, off ssa.Value, need int64, at *ssa.Basi
 	}
 	n, isMk := makeLenOf(c.Y)
 	if !isMk {
-		return false, "loop does not range over a slice made with the entry count"
+		// `for i := 0; i < count; i++`: the count itself bounds a counter that starts at 0 and advances by one per round
+		cp, ok := canonConv(c.X).(*ssa.Phi)
+		if !ok || cp.Block() != hb {
+			return false, "loop does not range over a slice made with the entry count"
+		}
+		unit, zero := true, false
+		for i, e := range cp.Edges {
+			if hb.Dominates(hb.Preds[i]) {
+				p2, k3, ok := affineInPhi(e)
+				if !ok || p2 != cp || k3 != 1 {
+					unit = false
+				}
+			} else if c0, ok := cInt(e); ok && c0 == 0 {
+				zero = true
+			}
+		}
+		if !unit || !zero {
+			return false, "loop does not range over a slice made with the entry count"
+		}
+		n = c.Y
+	}
+	// the count is len(data)/step itself: step*(len/step) <= len needs no guard (the counter must advance by one per
+	// round, in step with the offset)
+	if q, ok := canonConv(n).(*ssa.BinOp); ok && q.Op == token.QUO && init == 0 {
+		if k2, ok := cInt(q.Y); ok && k2 == step {
+			if lx, isLen := isLenOf(q.X); isLen && sameValue(lx, data) {
+				if cp, ok := canonConv(c.X).(*ssa.Phi); ok && cp.Block() == hb {
+					unit, zero := true, false
+					for i, e := range cp.Edges {
+						if hb.Dominates(hb.Preds[i]) {
+							p2, k3, ok := affineInPhi(e)
+							if !ok || p2 != cp || k3 != 1 {
+								unit = false
+							}
+						} else if c0, ok := cInt(e); ok && c0 == 0 {
+							zero = true
+						}
+					}
+					if unit && zero {
+						return true, fmt.Sprintf("stride loop over len(data)/%d entries, offset advanced by %d per round; read of %d at +%d", step, step, need, k)
+					}
+				}
+			}
+		}
 	}
 	// exact-length guard: len(data[init:]) == step * n  (operands in either order, conversions ignored)
 	for _, b := range f.Blocks {
@@ -951,7 +1015,118 @@ func symGuarded(f *ssa.Function, sym, x ssa.Value, at *ssa.BasicBlock) bool {
 			return true
 		}
 	}
+	// the guard lives in a private predicate: `if isX(xs) { ... xs[len(G):] }` where isX(p) can only answer true
+	// when len(p) > len(G) (or >=) held
+	for _, b := range f.Blocks {
+		if len(b.Instrs) == 0 {
+			continue
+		}
+		ifi, ok := b.Instrs[len(b.Instrs)-1].(*ssa.If)
+		if !ok {
+			continue
+		}
+		cond, trueEdge := ifi.Cond, 0
+		if u, ok := cond.(*ssa.UnOp); ok && u.Op == token.NOT {
+			cond, trueEdge = u.X, 1
+		}
+		call, ok := cond.(*ssa.Call)
+		if !ok || !edgeDominates(b, trueEdge, at) {
+			continue
+		}
+		g := call.Call.StaticCallee()
+		if g == nil || len(g.Blocks) == 0 || g.Pkg == nil || f.Pkg == nil || g.Pkg != f.Pkg || g.Signature.Results().Len() != 1 {
+			continue
+		}
+		for i, a := range call.Call.Args {
+			if i < len(g.Params) && sameValue(a, x) && predicateImpliesLen(g, g.Params[i], sym) {
+				return true
+			}
+		}
+	}
 	return false
+}
+
+// predicateImpliesLen: the bool function g can only return true when `S <= len(prm)` held, where S is the callee's
+// view of the caller's bound sym (a constant, or the length of a package-level variable).
+func predicateImpliesLen(g *ssa.Function, prm *ssa.Parameter, sym ssa.Value) bool {
+	sameBound := func(v ssa.Value) bool {
+		if k1, ok1 := cInt(v); ok1 {
+			k2, ok2 := cInt(sym)
+			return ok2 && k1 == k2
+		}
+		a, ok1 := isLenOf(v)
+		b, ok2 := isLenOf(sym)
+		if !ok1 || !ok2 {
+			return false
+		}
+		ga, ok1 := globalLoaded(a)
+		gb, ok2 := globalLoaded(b)
+		return ok1 && ok2 && ga == gb
+	}
+	isGuard := func(v ssa.Value) bool {
+		bo, ok := v.(*ssa.BinOp)
+		if !ok {
+			return false
+		}
+		isL := func(v ssa.Value) bool { a, ok := isLenOf(v); return ok && canon(a) == ssa.Value(prm) }
+		switch bo.Op {
+		case token.GTR, token.GEQ:
+			return isL(bo.X) && sameBound(bo.Y)
+		case token.LSS, token.LEQ:
+			return sameBound(bo.X) && isL(bo.Y)
+		}
+		return false
+	}
+	rets := returnsOf(g)
+	if len(rets) == 0 {
+		return false
+	}
+	for _, ret := range rets {
+		if len(ret.Results) != 1 {
+			return false
+		}
+		v := ret.Results[0]
+		if c, ok := v.(*ssa.Const); ok && c.Value != nil && c.Value.String() == "false" {
+			continue
+		}
+		if isGuard(v) {
+			continue
+		}
+		ph, ok := v.(*ssa.Phi)
+		if !ok {
+			return false
+		}
+		for i, e := range ph.Edges {
+			if c, ok := e.(*ssa.Const); ok && c.Value != nil && c.Value.String() == "false" {
+				continue
+			}
+			if isGuard(e) {
+				continue
+			}
+			// the edge is taken only after a guard answered true
+			pred := ph.Block().Preds[i]
+			okEdge := false
+			for _, b := range g.Blocks {
+				ifi, isIf := b.Instrs[len(b.Instrs)-1].(*ssa.If)
+				if isIf && isGuard(ifi.Cond) && (edgeDominates(b, 0, pred) || (b == pred && pred.Succs[0] == ph.Block() && pred.Succs[1] != ph.Block())) {
+					okEdge = true
+				}
+			}
+			if !okEdge {
+				return false
+			}
+		}
+	}
+	return true
+}
+
+func globalLoaded(v ssa.Value) (*ssa.Global, bool) {
+	u, ok := canon(v).(*ssa.UnOp)
+	if !ok || u.Op != token.MUL {
+		return nil, false
+	}
+	g, ok := u.X.(*ssa.Global)
+	return g, ok
 }
 
 // sameLenSlices: a and b are both created by make with the same length value.
